@@ -161,6 +161,13 @@ def judge(case, impl, model):
     v = roundtrip_oracle(case, impl)
     if v is not None and not (case.split()[1] == "9" and v.get("field") == 0):
         return v
+    if case.startswith("mc_build 17 "):
+        # certification EchoIncPayloadAns: CID 0x08 followed by every request byte incremented by one (mod 256), up to 241 bytes
+        req = bytes.fromhex(case.split("=x")[1])
+        want = "08" + bytes((b + 1) & 0xFF for b in req[:241]).hex()
+        if impl.split()[0] != want:
+            return {"kind": "EchoIncPayloadAns does not carry the whole echo payload (each byte + 1): builder output does not parse back to what was built from",
+                    "payload_len": len(req), "built_len": len(impl.split()[0]) // 2 - 1, "spec_output": want[:80] + "..."}
     if case.startswith("ident") and not case.startswith("ident parse"):
         t = case.split()
         parts = impl.split()
